@@ -49,3 +49,13 @@ Theorem C16_add_checksum_conflict :
   image_add_checksum cs ty value = Err ValueError.
 Proof. exact add_checksum_conflict. Qed.
 Print Assumptions C16_add_checksum_conflict.
+
+(* after writing and reading a treeinfo, every path maps to exactly the algorithm and value given for it in the file, and no
+   path carries a checksum that was written for another: the whole-section statement over the writer's table *)
+From PM Require Import Base.Ini Model.TreeInfo Proofs.TreeInfoChecksums.
+Theorem C16_written_checksums_are_read_back_per_path :
+  forall x mv t x', ser_ti x mv = Ok t -> deser_ti t = Ok x' -> NoDup (map fst (ti_checksums x)) ->
+  (forall c, In c (ti_checksums x) -> exists tc, typed_checksum (ck_text c) = Ok tc /\ assoc (fst c) (ti_checksums x') = Some tc) /\
+  (forall p, ~ In p (map fst (ti_checksums x)) -> assoc p (ti_checksums x') = None).
+Proof. exact checksums_read_back. Qed.
+Print Assumptions C16_written_checksums_are_read_back_per_path.
